@@ -1,6 +1,7 @@
 import Driver.HsShared
 import Mtv.Session.Start
 import Mtv.Handshake.SplitPQ
+import Mtv.Handshake.Conn
 /-
   Line-protocol driver of property C06: the client machine against `ServerSpec` (`exchange`), with the
   executable SHA-1 / AES-256 / modular exponentiation plugged in.
@@ -36,6 +37,14 @@ import Mtv.Handshake.SplitPQ
   the byte stream under it are C08's) and hands the session to `saveSession` (where a storage keeps it is not the
   machine's): both tokens are checked and the exchange is answered like a `c06.hs` - which is the statement these
   operations test on the real client.
+    c06.draw <tag> <refusal> <more> <the 18 tokens>
+  the client's own draws as an input: the 18 tokens hold what crypto/rand delivers first (nonce, new_nonce, the DH
+  exponent b), <more> (`-` or lower-case hex, a multiple of 256 bytes up to 2048) what it delivers after them. The client
+  machine draws its exponent ONCE (`Draws.b`, as `math.MakeGAB` does): <more> is checked and not read, the exchange is
+  answered like a `c06.hs` - for EVERY b, tiny, huge or a multiple of the group order (`hs_agree_any_draw`). <refusal>
+  (`silent` | `close`): what the conformant server does with a request it has to refuse (g_b not in (1, dh_prime-1)):
+  nothing - the machine keeps waiting (`hang`) -, or it drops the connection: the reading routine's EOF case
+  (`Mtv.Handshake.connStep … (.eof …)`, the model of C07) ends the waiting step with `err:badResponse`.
     c06.split <tag> <pq>       the guard of handshake.go + the MODEL of math.SplitPQ (`guardedSplit`'s two halves, printed
                                apart): `refused` | `ok <p1> <p2>` | `running` | `panic:div0`. The model runs with the fixed
                                draw stream `drvDraws` and `drvRounds` rounds; by `splitPQ_semiprime` the pair does not
@@ -112,6 +121,34 @@ def handleHs (ts : List String) : String :=
       | none => "srv=refused skey=- ssalt=0 shash=-"
     resultLine x.client x.actions ++ " " ++ srv
   | none => "bad-op"
+
+/-! ### `c06.draw`: the client's draws as an input, the stream going on after the first exponent -/
+
+/-- `-`, or lower-case hex of 256, 512, … 2048 bytes -/
+def moreTok (t : String) : Bool :=
+  t = "-" ||
+  (t.toList.all (fun ch => ch.isDigit || ('a' ≤ ch && ch ≤ 'f')) &&
+    (match parseBytes? t with
+     | some b => b.length ≠ 0 && b.length % 256 = 0 && b.length ≤ 2048
+     | none => false))
+
+def handleDraw : List String → String
+  | "c06.draw" :: _tag :: refusal :: more :: rest =>
+    if (refusal ≠ "silent" ∧ refusal ≠ "close") ∨ !moreTok more ∨ rest.length ≠ 18 then "bad-op" else
+    match parseHs ("c06.hs" :: "x" :: rest) with
+    | some (c, s) =>
+      let x := exchange c s
+      match x.server with
+      | some _ => handleHs ("c06.hs" :: "x" :: rest)
+      | none =>
+        -- the server refused a request (or the client gave up before). `close`: the connection is dropped, the
+        -- reading routine of this connection reads EOF (C07's model of the connection, as repaired)
+        let st := if refusal = "close" then
+            (connStep true (afterExchange true c x.client) (.eof true c)).1.hs
+          else x.client
+        resultLine st x.actions ++ " srv=refused skey=- ssalt=0 shash=-"
+    | none => "bad-op"
+  | _ => "bad-op"
 
 /-! ### `c06.hist`: the exchange as one step of what happens on a client object -/
 
@@ -321,6 +358,7 @@ def handleEnv : List String → String
 
 def handle : List String → String
   | "c06.env" :: ts => handleEnv ("c06.env" :: ts)
+  | "c06.draw" :: ts => handleDraw ("c06.draw" :: ts)
   | "c06.split" :: ts => handleSplit ("c06.split" :: ts)
   | "c06.splitraw" :: ts => handleSplit ("c06.splitraw" :: ts)
   | "c06.mulmod" :: ts => handleSplit ("c06.mulmod" :: ts)
